@@ -207,3 +207,51 @@ class table_group_init:
     def ensures_note_parent(self, name, items, comment, note, color, result):
         # every note points back to its owner (C05)
         return note is None or note.parent is self
+
+
+# ------------------------------------------------------------------------------------------ Enum (loop invariant)
+@contract('pydbml._classes.enum:Enum.add_item')
+class enum_add_item:
+    """An EnumItem is appended itself; a string becomes a new item of that name (C01, C09)."""
+    properties = ('C01', 'C09', 'C11')
+    params = {'self': 'Enum', 'item': 'Union[EnumItem,str]'}
+
+    def modifies(self, item):
+        return [loc_list(self.items)]
+
+    def ensures_appended(self, item, result):
+        return (len(self.items) == len(old(self.items)) + 1
+                and all(self.items[j] is old(self.items)[j] for j in range(len(old(self.items)))))
+
+    def ensures_last(self, item, result):
+        return (self.items[len(self.items) - 1] is item) if isinstance(item, EnumItem) else \
+            (fresh(self.items[len(self.items) - 1]) and self.items[len(self.items) - 1].name == item)
+
+
+@contract('pydbml._classes.enum:Enum.__init__')
+class enum_init:
+    """The items are the given EnumItem objects, in order, in a list of this call (C01, C05, C11)."""
+    properties = ('C01', 'C05', 'C11')
+    params = {'self': 'Enum', 'name': 'Optional[str]', 'items': 'List[EnumItem]', 'schema': 'Optional[str]',
+              'comment': 'Optional[str]'}
+
+    def requires_not_aliased(self, name, items, schema, comment):
+        return True
+
+    def modifies(self, name, items, schema, comment):
+        return [loc(self, 'database'), loc(self, 'name'), loc(self, 'schema'), loc(self, 'comment'), loc(self, 'items')]
+
+    def loop0_modifies(self, name, items, schema, comment):
+        return [loc_list(self.items)]
+
+    def loop0_invariant(self, name, items, schema, comment, i):
+        return (fresh(self.items) and len(self.items) == i
+                and all(self.items[j] is items[j] for j in range(i))
+                and self.database is None and self.name is name and self.schema is schema and self.comment is comment)
+
+    def ensures_fields(self, name, items, schema, comment, result):
+        return self.database is None and self.name is name and self.schema is schema and self.comment is comment
+
+    def ensures_items(self, name, items, schema, comment, result):
+        return (fresh(self.items) and len(self.items) == len(items)
+                and all(self.items[j] is items[j] for j in range(len(items))))
